@@ -88,8 +88,11 @@ def _job_inner(a):
 
     signal.signal(signal.SIGALRM, onalarm)
     signal.alarm(budget)
+    reached = _trace_repo_functions()
     try:
-        return verify_job(cname, shape, max_paths=max_paths)
+        r = verify_job(cname, shape, max_paths=max_paths)
+        r["reached"] = sorted(reached)
+        return r
     except (TimeoutError, core_JobTimeout):
         return dict(contract=cname, shape=shape, paths=0, clauses={}, refuted=[], undecided=[f"job budget {budget}s exceeded"], exceptions=[], stub_calls={}, pre_false=0, t=budget, stats={})
     except BaseException as e:  # engine crash inside a worker
@@ -98,6 +101,68 @@ def _job_inner(a):
         return dict(contract=cname, shape=shape, paths=0, clauses={}, refuted=[], undecided=[], exceptions=[], stub_calls={}, pre_false=0, t=0, stats={}, crash=traceback.format_exc()[-1500:])
     finally:
         signal.alarm(0)
+
+
+def _trace_repo_functions():
+    """which functions of the repository do the symbolic runs actually execute?  (sys.monitoring PY_START, each code object
+    reported once: no measurable cost).  Reported in the evidence as `functions_executed_symbolically`; the functions of the
+    property's anchor files that NO contract reaches are listed next to it (`anchor_functions_not_reached`)."""
+    reached = set()
+    mon = getattr(sys, "monitoring", None)
+    if mon is None:
+        return reached
+    root = os.path.realpath(REPO) + "/okdmr/dmrlib/"
+    tid = mon.PROFILER_ID
+    try:
+        mon.use_tool_id(tid, "pyvc-reach")
+    except ValueError:
+        pass
+
+    def on_start(code, offset):
+        fn = code.co_filename
+        if fn.startswith(root) and "/tests/" not in fn:
+            reached.add(fn[len(root) - len("okdmr/dmrlib/"):] + ":" + code.co_qualname)
+        return mon.DISABLE
+
+    mon.register_callback(tid, mon.events.PY_START, on_start)
+    mon.set_events(tid, mon.events.PY_START)
+    return reached
+
+
+def anchor_functions(prop):
+    """every function / method defined in the property's anchor files (ast, current source) -> {file:qualname}"""
+    import ast
+
+    rec = next((json.loads(l) for l in open(os.path.join(HERE, "properties.jsonl")) if json.loads(l)["id"] == prop), None)
+    out = set()
+    if rec is None:
+        return out
+    files = []
+    for f in rec["anchors"]["files"]:
+        p = os.path.join(REPO, f)
+        if os.path.isdir(p):
+            files += [os.path.join(p, x) for x in sorted(os.listdir(p)) if x.endswith(".py")]
+        elif os.path.exists(p):
+            files.append(p)
+    for p in files:
+        try:
+            tree = ast.parse(open(p).read())
+        except SyntaxError:
+            continue
+        rel = os.path.relpath(p, REPO)
+
+        def walk(node, prefix):
+            for ch in ast.iter_child_nodes(node):
+                if isinstance(ch, (ast.FunctionDef, ast.AsyncFunctionDef)):
+                    out.add(rel + ":" + prefix + ch.name)
+                    walk(ch, prefix + ch.name + ".<locals>.")
+                elif isinstance(ch, ast.ClassDef):
+                    walk(ch, prefix + ch.name + ".")
+                elif not isinstance(ch, (ast.expr, ast.Lambda)):
+                    walk(ch, prefix)
+
+        walk(tree, "")
+    return out
 
 
 # ------------------------------------------------------------------------------------------- native side
@@ -189,6 +254,19 @@ def known_match(entry, prop, obligation, shape, witness):
     return True
 
 
+def base_obligation(REGISTRY, contract, clause):
+    """obligation name of the underlying contract for a clause of a pair contract (pyvc/pair.py): known findings are recorded
+    under the single-call contract and match the same clause met in a pair"""
+    po = getattr(REGISTRY.get(contract), "pair_of", None)
+    if po is None:
+        return contract + "." + clause
+    if clause.startswith("first_call."):
+        return po[0] + "." + clause[len("first_call."):]
+    if clause.startswith("second_call."):
+        return po[1] + "." + clause[len("second_call."):]
+    return contract + "." + clause
+
+
 def slug(s):
     return re.sub(r"[^A-Za-z0-9_.=-]+", "_", s)[:150]
 
@@ -258,6 +336,11 @@ def main():
     paths = 0
     stub_calls = {}
     per_contract = {}
+    reached = set()
+    for r in res:
+        if REGISTRY[r["contract"]].canary:
+            continue
+        reached.update(x for x in r.get("reached", []) if not x.endswith((":<module>", ":<lambda>", ":<listcomp>", ":<genexpr>", ":<dictcomp>")))
     for r in res:
         paths += r["paths"]
         pc = per_contract.setdefault(r["contract"], dict(shapes=0, paths=0, proved_instances=0, pre_false=0, seconds=0.0))
@@ -425,7 +508,7 @@ def main():
     for x in cand + extra_viol:
         if REGISTRY[x["contract"]].canary:
             continue
-        obl = x["contract"] + "." + x["clause"]
+        obl = base_obligation(REGISTRY, x["contract"], x["clause"])
         if x["confirmed"] is False or x["confirmed"] is None:
             continue  # engine disagreement / not replayable, handled elsewhere
         ent = next((e for e in kf.get("known", []) if known_match(e, a.prop if a.prop in REGISTRY[x["contract"]].properties else REGISTRY[x["contract"]].properties[0], obl, x["shape"], x["witness"] or {})), None)
@@ -562,6 +645,12 @@ def main():
                 functions_under_contract=functions,
                 # (a contract names ONE target; the functions it reaches and proves clauses about are listed per contract file)
                 functions_under_contract_per_contract_file={m: (sys.modules[m].__doc__ or "").strip() for m in sorted({REGISTRY[n].__module__ for n in names if not REGISTRY[n].canary})},
+                functions_executed_symbolically=dict(
+                    what="functions of okdmr/dmrlib whose real code objects were executed on symbolic values by the proof contracts of this run (sys.monitoring PY_START); bounded contracts run natively and are not counted",
+                    count=len(reached), functions=sorted(reached)),
+                anchor_functions_not_reached=dict(
+                    what="functions defined in the property's anchor files that no proof contract of this run executed: nothing is proved about them (repr / debug / CLI helpers, code only bounded contracts reach, or code outside the property)",
+                    functions=sorted(anchor_functions(a.prop) - reached)),
                 contracts={n: dict(target=REGISTRY[n].target, stubs=REGISTRY[n].stubs, **per_contract.get(n, {})) for n in names if not REGISTRY[n].canary},
                 shapes=len(jobs), paths=paths, instances_by_backend=by_backend, solver_s=round(solver_s, 3),
                 stub_evaluations=stub_calls,
